@@ -18,6 +18,12 @@ Theorem C08_count : forall host raw rec lf cf c i e ce w d al s off ipp s' o' t 
   (match w with None => True | Some we => 0 < n /\ exists v, eval (mkctx raw (slot_set s (FN i) (VList [])) off) we = Ok v /\ truth v = true end) ->
   exists l, slot_get s' (FN i) = Some (VList l) /\ length l = Z.to_nat n.
 Proof. intros host raw rec lf. exact (seq_count_length host raw rec lf). Qed.
+(* ... in particular a count that is not positive (a signed field below zero, `n - 3`) yields the empty list and consumes nothing *)
+Theorem C08_count_nonpositive : forall host raw rec lf cf c i e ce d al s off ipp n,
+  eval_int (mkctx raw (slot_set s (FN i) (VList [])) off) ce = Ok n ->
+  n <= 0 ->
+  unpack_field host raw rec lf cf c (CSeq i e (Some ce) None None d al) s off ipp = FOk (slot_set s (FN i) (VList [])) off [].
+Proof. intros host raw rec lf. exact (seq_count_nonpositive host raw rec lf). Qed.
 (* with an until-condition (which sees the list built so far): the loop ends exactly when it is true ... *)
 Theorem C08_until_final : forall host raw rec fuel cf c i e al u s off t s' o' t',
   unpack_until host raw rec fuel cf c i e al u s off t = FOk s' o' t' ->
@@ -61,6 +67,7 @@ Proof. intros host raw rec. exact (ref_spec host raw rec). Qed.
 
 Print Assumptions C08_when_false.
 Print Assumptions C08_count.
+Print Assumptions C08_count_nonpositive.
 Print Assumptions C08_until_final.
 Print Assumptions C08_until_stops.
 Print Assumptions C08_until_one_more.
